@@ -96,18 +96,30 @@ def gen_rng_consts(src):
     if len(s2i.args.args) != 2 or s2i.args.args[1].arg != 'modulo' or len(dflt) != 1:
         raise ExtractError('str2int(string, modulo=<int>) signature changed')
     modulo = lit_rat(dflt[0])
-    # jump_dt: to = self.dt_jump_size*ti ; default ti = self.module.t.ti + 1
+    # jump_dt: `to = <expression in self.dt_jump_size and ti>`, translated (any arrangement of * and +);
+    # default `ti = <owner's ti> + <offset>`
     jd = src.func(rel, 'jump_dt', 'Dist')
-    to_expr = None; ti_default = None
+    to_node = None; ti_node = None
     for n in ast.walk(jd):
         if isinstance(n, ast.Assign) and unparse(n.targets[0]) == 'to':
-            to_expr = unparse(n.value)
+            to_node = n.value
         if isinstance(n, ast.Assign) and unparse(n.targets[0]) == 'ti':
-            ti_default = unparse(n.value)
-    if to_expr not in ('self.dt_jump_size * ti', 'ti * self.dt_jump_size'):
-        raise ExtractError(f'Dist.jump_dt: unsupported jump target expression {to_expr!r}')
-    if ti_default != 'self.module.t.ti + 1':
-        raise ExtractError(f'Dist.jump_dt: unsupported default ti {ti_default!r}')
+            ti_node = n.value
+    if to_node is None or ti_node is None:
+        raise ExtractError('Dist.jump_dt: assignments to `to` / default `ti` not found')
+
+    def tr_int(n, env):
+        if isinstance(n, ast.Constant) and isinstance(n.value, int) and not isinstance(n.value, bool):
+            return f'({n.value} : Int)'
+        if isinstance(n, (ast.Name, ast.Attribute)) and unparse(n) in env:
+            return env[unparse(n)]
+        if isinstance(n, ast.BinOp) and isinstance(n.op, (ast.Mult, ast.Add, ast.Sub)):
+            op = {ast.Mult: '*', ast.Add: '+', ast.Sub: '-'}[type(n.op)]
+            return f'({tr_int(n.left, env)} {op} {tr_int(n.right, env)})'
+        raise ExtractError(f'Dist.jump_dt: unsupported expression {unparse(n)}')
+    to_lean = tr_int(to_node, {'self.dt_jump_size': f'({stride.numerator} : Int)', 'ti': 'ti'})
+    ti_lean = tr_int(ti_node, {'self.module.t.ti': 'ownerTi', 'self.module.ti': 'ownerTi'})
+    to_expr = unparse(to_node); ti_default = unparse(ti_node)
     # jump: default delta
     jp = src.func(rel, 'jump', 'Dist')
     names = [a.arg for a in jp.args.args]
@@ -123,6 +135,10 @@ def seedModulo : Nat := {modulo.numerator}
 def jumpDefaultDelta : Nat := {delta.numerator}
 /-- `Dist.jump_dt`: default `ti = module.t.ti + 1` (offset) -/
 def jumpDtTiOffset : Nat := 1
+/-- `Dist.jump_dt`: `to = {to_expr}`, translated -/
+def jumpDtTarget (ti : Int) : Int := {to_lean}
+/-- `Dist.jump_dt`: default `ti = {ti_default}`, translated -/
+def jumpDtDefaultTi (ownerTi : Int) : Int := {ti_lean}
 end StarsimModel.Gen
 '''
     return body, dict(dt_jump_size=int(stride), modulo=int(modulo), delta=int(delta))
